@@ -23,6 +23,7 @@ what it meets again).
 import PubgrubProofs.StoreInvariant
 import PubgrubProofs.TreeSound
 import PubgrubProofs.SharedIds
+import PubgrubProofs.RangeAnyOrder2
 
 namespace Pubgrub.C03
 open Pubgrub
@@ -82,5 +83,39 @@ theorem C03_shared_iff (W : World P S V M) (hW : W.SetsValid) (debug : Bool) (fu
     noSolution_tree_origin W hW debug fuel root rv s tree h
   obtain ⟨sh, h1, h2⟩ := buildDerivationTree_shared_iff W root rv s.st hinv terminal tree hbuild
   exact ⟨terminal, sh, h1, h2⟩
+
+/-! ### `Range V` over ANY linear order (second batch of pull-backs, RangeAnyOrder2) -/
+section AnyOrder2
+variable {P V M Pr E : Type} [DecidableEq P] [LinearOrder V] [LE Pr] [DecidableLE Pr]
+
+theorem C03_range_tree_checkable (W : World P (Range V) V M) (hW : W.RangesWF) (debug : Bool) (fuel : Nat)
+    (root : P) (rv : V) (s : SolverState P (Range V) V M Pr) (tree : DerivationTree P (Range V) V M)
+    (h : Reachable (E := E) W debug fuel root rv (s, .noSolution tree)) :
+    tree.Checkable W root rv :=
+  by apply range_C03_tree_checkable (P := P) (V := V) (M := M) (Pr := Pr) (E := E) <;> assumption
+
+theorem C03_range_top_forbids_root (W : World P (Range V) V M) (hW : W.RangesWF) (debug : Bool) (fuel : Nat)
+    (root : P) (rv : V) (s : SolverState P (Range V) V M Pr) (tree : DerivationTree P (Range V) V M)
+    (h : Reachable (E := E) W debug fuel root rv (s, .noSolution tree))
+    (σ : P → Option V) (hσ : σ root = some rv) : TermsTrue σ tree.terms :=
+  by apply range_C03_top_forbids_root (P := P) (V := V) (M := M) (Pr := Pr) (E := E) <;> assumption
+
+theorem C03_range_shared_same (W : World P (Range V) V M) (hW : W.RangesWF) (debug : Bool) (fuel : Nat)
+    (root : P) (rv : V) (s : SolverState P (Range V) V M Pr) (tree : DerivationTree P (Range V) V M)
+    (h : Reachable (E := E) W debug fuel root rv (s, .noSolution tree))
+    (k : Nat) (t1 t2 : DerivationTree P (Range V) V M)
+    (h1 : (some k, t1) ∈ tree.derivedNodes) (h2 : (some k, t2) ∈ tree.derivedNodes) : t1 = t2 :=
+  by apply range_C03_shared_same (P := P) (V := V) (M := M) (Pr := Pr) (E := E) <;> assumption
+
+theorem C03_range_shared_iff (W : World P (Range V) V M) (hW : W.RangesWF) (debug : Bool) (fuel : Nat)
+    (root : P) (rv : V) (s : SolverState P (Range V) V M Pr) (tree : DerivationTree P (Range V) V M)
+    (h : Reachable (E := E) W debug fuel root rv (s, .noSolution tree)) :
+    ∃ (terminal : Nat) (sh : Nat → Bool), IsTreeOf s.st.store sh terminal tree ∧
+      ∀ k, sh k = true ↔
+        (∃ inc a b, s.st.store[k]? = some inc ∧ inc.causes = some (a, b)) ∧
+          TwoEdgesTo s.st.store terminal k :=
+  by apply range_C03_shared_iff (P := P) (V := V) (M := M) (Pr := Pr) (E := E) <;> assumption
+
+end AnyOrder2
 
 end Pubgrub.C03
